@@ -4,6 +4,7 @@ import (
 	"fmt"
 	"go/token"
 	"go/types"
+	"strings"
 
 	"gosym/sym"
 
@@ -31,7 +32,7 @@ func (e *Exec) unop(instr *ssa.UnOp, x Value) Value {
 	case token.XOR:
 		return sym.BvNot(x.(sym.Sc))
 	case token.ARROW:
-		return e.chanRecv(x, instr.CommaOk)
+		return e.chanRecv(x, instr.CommaOk, instr.X.Type())
 	}
 	e.unsupported("unop %v on %T", instr.Op, x)
 	return nil
@@ -671,10 +672,18 @@ func (e *Exec) callBuiltin(caller *frame, fn *ssa.Builtin, args []Value) Value {
 			}
 			return i64(len(x.entries))
 		case *Chan:
-			return i64zero
+			if x == nil {
+				return i64zero
+			}
+			return i64(len(x.buf))
 		}
 	case "cap":
 		switch x := args[0].(type) {
+		case *Chan:
+			if x == nil {
+				return i64zero
+			}
+			return i64(x.cap)
 		case Slice:
 			return x.Cap
 		case Array:
@@ -695,6 +704,7 @@ func (e *Exec) callBuiltin(caller *frame, fn *ssa.Builtin, args []Value) Value {
 			e.evClose(c)
 			return nil
 		}
+		e.noteChanAccess(c)
 		if c.closed {
 			panic(targetPanic{Iface{T: e.M.runtimeErrT, V: litString("close of closed channel")}})
 		}
@@ -829,36 +839,217 @@ func (e *Exec) copyOp(dst, src Slice) Value {
 // goBlocked unwinds an inlined goroutine (footprint mode) that would block.
 type goBlocked struct{}
 
-func (e *Exec) chanRecv(c Value, commaOk bool) Value {
-	if ch, ok := c.(*Chan); ok && ch != nil && !e.evOn() && e.foot != nil {
-		if ch.closed {
-			if commaOk {
-				return Tuple{Struct{}, sym.Bool(false)}
-			}
-			return Struct{}
+func chanElemZero(t types.Type) Value {
+	if ct, ok := under(t).(*types.Chan); ok {
+		return zero(ct.Elem())
+	}
+	return Struct{}
+}
+
+// chanBlock: the current thread would block on a channel operation. Inside an
+// inlined goroutine (footprint mode) the goroutine is left blocked; the only
+// thread of a sequential harness blocking for good is a self-deadlock, i.e.
+// non-termination (same treatment as a mutex that is already held).
+func (e *Exec) chanBlock(what string) {
+	if e.goDepth > 0 {
+		panic(goBlocked{})
+	}
+	e.abort("budget", "self-deadlock: %s blocks for good at %s", what, e.where())
+}
+
+func (e *Exec) chanRecv(c Value, commaOk bool, ct types.Type) Value {
+	ch, _ := c.(*Chan)
+	if ch == nil {
+		e.chanBlock("receive from a nil channel")
+	}
+	ret := func(v Value, ok bool) Value {
+		if commaOk {
+			return Tuple{v, sym.Bool(ok)}
 		}
-		if e.goDepth > 0 {
-			// a receive that blocks inside an inlined goroutine: the goroutine is
-			// left blocked (its remaining accesses are not part of this path)
-			panic(goBlocked{})
-		}
+		return v
 	}
 	if e.evOn() {
-		if ch, ok := c.(*Chan); ok && ch != nil {
-			e.evRecv(ch)
-			// only closed-channel receives occur in the code under test: zero value
-			if commaOk {
-				return Tuple{Struct{}, sym.Bool(false)}
-			}
+		if !isEmptyStruct(ct) {
+			e.unsupported("event mode: receive of a non-empty element type at %s", e.where())
+		}
+		if !commaOk {
+			e.evAdd(Event{Op: "recv", Obj: e.evName(ch)})
 			return Struct{}
 		}
+		got := e.Nondet("bool", 0, "recvok")
+		if e.Branch(got) {
+			e.evAdd(Event{Op: "recv", Obj: e.evName(ch), Outcome: "ok"})
+			return ret(Struct{}, true)
+		}
+		e.evAdd(Event{Op: "recv", Obj: e.evName(ch), Outcome: "closed"})
+		return ret(Struct{}, false)
 	}
-	e.unsupported("channel receive at %s", e.where())
+	e.noteChanAccess(ch)
+	if len(ch.buf) > 0 {
+		v := ch.buf[0]
+		ch.buf = ch.buf[1:]
+		return ret(v, true)
+	}
+	if ch.closed {
+		return ret(chanElemZero(ct), false)
+	}
+	e.chanBlock("receive from an empty channel")
 	return nil
 }
 
-func (e *Exec) chanSend(c, v Value) {
-	e.unsupported("channel send at %s", e.where())
+func isEmptyStruct(ct types.Type) bool {
+	c, ok := under(ct).(*types.Chan)
+	if !ok {
+		return false
+	}
+	st, ok := under(c.Elem()).(*types.Struct)
+	return ok && st.NumFields() == 0
+}
+
+func (e *Exec) chanSend(c, v Value, ct types.Type) {
+	ch, _ := c.(*Chan)
+	if ch == nil {
+		e.chanBlock("send on a nil channel")
+	}
+	if e.evOn() {
+		if ch.cap == 0 {
+			e.unsupported("event mode: send on an unbuffered channel at %s", e.where())
+		}
+		if !isEmptyStruct(ct) {
+			e.unsupported("event mode: send of a non-empty element type at %s", e.where())
+		}
+		e.evAdd(Event{Op: "send", Obj: e.evName(ch), Arg: ch.cap})
+		return
+	}
+	e.noteChanAccess(ch)
+	if ch.closed {
+		panic(targetPanic{Iface{T: e.M.runtimeErrT, V: litString("send on closed channel")}})
+	}
+	if len(ch.buf) < ch.cap {
+		ch.buf = append(ch.buf, copyVal(v))
+		return
+	}
+	e.chanBlock("send on a full channel")
+}
+
+// noteChanAccess: channel operations are synchronisation operations (like
+// sync/atomic): recorded as atomic accesses in footprint mode.
+func (e *Exec) noteChanAccess(ch *Chan) {
+	if e.foot != nil && ch != nil {
+		e.foot.record(e, ch, true, true)
+	}
+}
+
+// selectStmt executes an ssa.Select. Result: (index, recvOk, r_0 ... r_n-1)
+// with one r per receive state.
+func (e *Exec) selectStmt(fr *frame, instr *ssa.Select) Value {
+	n := len(instr.States)
+	chans := make([]*Chan, n)
+	sends := make([]Value, n)
+	for i, st := range instr.States {
+		chans[i], _ = fr.get(st.Chan).(*Chan)
+		if st.Dir == types.SendOnly {
+			sends[i] = fr.get(st.Send)
+		}
+	}
+	result := func(idx int, ok bool, got Value) Value {
+		t := Tuple{i64(idx), sym.Bool(ok)}
+		for i, st := range instr.States {
+			if st.Dir == types.RecvOnly {
+				if i == idx && got != nil {
+					t = append(t, got)
+				} else {
+					t = append(t, chanElemZero(st.Chan.Type()))
+				}
+			}
+		}
+		return t
+	}
+	// choose picks one of k alternatives by a chain of fresh booleans
+	choose := func(k int, tag string) int {
+		for i := 0; i < k-1; i++ {
+			if e.Branch(e.Nondet("bool", 0, tag)) {
+				return i
+			}
+		}
+		return k - 1
+	}
+	if e.evOn() {
+		// every alternative is an edge of the thread's event tree; which of them
+		// are enabled in a given global state is decided by the schedule encoding
+		var alts []Event
+		for i, st := range instr.States {
+			ch := chans[i]
+			if ch == nil {
+				continue // a nil channel is never ready
+			}
+			if !isEmptyStruct(st.Chan.Type()) {
+				e.unsupported("event mode: select on a channel of a non-empty element type at %s", e.where())
+			}
+			if st.Dir == types.SendOnly {
+				if ch.cap == 0 {
+					e.unsupported("event mode: select with a send on an unbuffered channel at %s", e.where())
+				}
+				alts = append(alts, Event{Op: "send", Obj: e.evName(ch), Arg: ch.cap, Sel: i})
+			} else {
+				alts = append(alts, Event{Op: "recv", Obj: e.evName(ch), Outcome: "ok", Sel: i})
+				alts = append(alts, Event{Op: "recv", Obj: e.evName(ch), Outcome: "closed", Sel: i})
+			}
+		}
+		k := len(alts)
+		if !instr.Blocking {
+			k++
+		}
+		if k == 0 {
+			e.unsupported("event mode: select without a ready-able case at %s", e.where())
+		}
+		c := choose(k, "select")
+		if c == len(alts) {
+			var names []string
+			for _, a := range alts {
+				names = append(names, a.Obj)
+			}
+			e.evAdd(Event{Op: "default", Obj: strings.Join(names, "+"), Alts: alts})
+			return result(-1, false, nil)
+		}
+		a := alts[c]
+		idx := a.Sel
+		a.Sel = 0
+		e.evAdd(a)
+		return result(idx, a.Op == "recv" && a.Outcome == "ok", nil)
+	}
+	var ready []int
+	for i, st := range instr.States {
+		ch := chans[i]
+		if ch == nil {
+			continue
+		}
+		if st.Dir == types.SendOnly {
+			if ch.closed || len(ch.buf) < ch.cap {
+				ready = append(ready, i)
+			}
+		} else if len(ch.buf) > 0 || ch.closed {
+			ready = append(ready, i)
+		}
+	}
+	if len(ready) == 0 {
+		if !instr.Blocking {
+			return result(-1, false, nil)
+		}
+		e.chanBlock("select with no ready case")
+	}
+	idx := ready[0]
+	if len(ready) > 1 {
+		idx = ready[choose(len(ready), "select")]
+	}
+	st := instr.States[idx]
+	if st.Dir == types.SendOnly {
+		e.chanSend(chans[idx], sends[idx], st.Chan.Type())
+		return result(idx, false, nil)
+	}
+	r := e.chanRecv(chans[idx], true, st.Chan.Type()).(Tuple)
+	ok := r[1].(sym.Sc)
+	return result(idx, ok.K && ok.V != 0, r[0])
 }
 
 func (e *Exec) goStmt(fr *frame, fn Value, args []Value) {
